@@ -61,6 +61,7 @@ type Contract struct {
 	NoSweep    bool
 	Sequential bool // obligation: no go statement in the function
 	HoldsLock  bool // obligation: no Unlock call outside defer
+	ChanState  bool // obligations: no send on / close of a closed channel, over ghost(closed, ch)
 	RecvNonNil bool
 	Params     []string // optional explicit parameter names (for externals)
 	Results    []string
@@ -276,6 +277,10 @@ func ParseSpecFile(path string, pkgName string) (*SpecFile, error) {
 		case "sequential":
 			// the function starts no goroutine (what it calls runs before it continues)
 			cur.Sequential = true
+		case "chanstate":
+			// sends and closes in this function are checked against ghost(closed, ch):
+			// a send or a close needs closed == 0, a close sets it to 1
+			cur.ChanState = true
 		case "nosweep":
 			cur.NoSweep = true
 		case "fuel":
